@@ -31,10 +31,12 @@ def run(s):
     if s.tier == 'quick':
         K.story_grid(s, 4, layouts=('none', 'between', 'everywhere'), kmax=3, full=False)
         K.story_grid(s, 4, layouts=('before',), pretties=(False,), kmax=2, full=False, names=K.HOSTILE_NAMES)
+        K.story_grid(s, 4, layouts=('before',), pretties=(False,), kmax=2, full=False, names=K.HOSTILE_NAMES_B)
         K.fuzz(s, 240, K.kind_weights(story=1.0, item=0.15, other=0.2), steps=(5, 25), direct=0.15)
     else:
         K.story_grid(s, 5, kmax=3, full=True)
         K.story_grid(s, 6, layouts=('before', 'between'), kmax=2, full=False, names=K.HOSTILE_NAMES)
+        K.story_grid(s, 4, layouts=('before', 'between'), kmax=2, full=False, names=K.HOSTILE_NAMES_B)
         K.fuzz(s, 15000, K.kind_weights(story=1.0, item=0.15, other=0.2), steps=(5, 40), direct=0.15)
 
 
